@@ -61,6 +61,10 @@ CHECKS = {
    text="Seeded exploration of generated credential sets and attempt sequences (up to 4 per connection, gated-operation probe before and after each) against ssh-simulator (real x/crypto/ssh client inside the bubble, retrying passwords on one connection), ldap (simple binds with several DN spellings; add/modify/delete/modify-dn/compare probes) and ftp (USER/PASS; file and directory commands), with a second connection to the same service instance interleaved by the choice tape. Reference model: success iff the pair (or the wildcard) is in the set, independent of history and of the other connection; exactly one authentication event per attempt carrying the presented password and the user as evaluated; gated operations refused until a success on this very connection.",
    ref="§3 C12", tech=TECH + "reference-model oracle over protocol replies and authentication events; interleaved second connection",
    note="Schedule dimension is thin (the second connection); LDAP anonymous bind result code is not judged; FTP has a fixed credential table."),
+ "C13": dict(
+   text="Seeded exploration with a structural ClientHello generator (the JA3 string and MD5 are computed from the generated structure per the JA3 specification, never by parsing bytes): hellos with legacy versions SSL3..TLS1.2, GREASE in suites/extensions/groups, unknown, repeated and empty-bodied extensions, 0-3 point formats and one of three server names are sent to the real https service on separate connections, a few interleaved at a time, under record-layer fragmentation x stream segmentation x client abort (close/reset) right after the hello; GREASE-only variants of earlier hellos must get the same digest. Every https event of the connection must carry the reference digest and the SNI sent.",
+   ref="§3 C13", tech=TECH + "generator-as-oracle JA3 over events recorded under record fragmentation, stream segmentation and client-abort faults",
+   note="The digest itself is a pure function of the hello; what the simulator decides is that the vendored TLS stack's record/handshake reassembly delivers the same hello to it under every fragmentation, segmentation and abort."),
 }
 NA = {
  "C17": "pure functions of a byte buffer (decoder methods, ipp decode/encode): no schedule, clock, fault or interleaving to simulate (DESIGN §4)",
